@@ -68,6 +68,12 @@ type Spec[C any] struct {
 	Retries    int           // replay attempts (nondeterministic units), default 1
 	Assumes    []string
 	NoRecover  bool // Run handles its own panics / must not be wrapped
+	// Replicas > 1: one case in ReplicaEvery (chosen by a hash of the case; default 8) is, after its normal run,
+	// run again as Replicas independent copies in parallel goroutines (each copy builds its own objects): state
+	// that the library shares between independent objects (package-level pools, caches, scratch buffers) then
+	// shows as a failing copy. Run must be reentrant (no package-level state of the harness itself).
+	Replicas     int
+	ReplicaEvery int
 }
 
 type erased interface {
@@ -90,7 +96,7 @@ func (s *Spec[C]) runJSON(raw json.RawMessage) (Outcome, error) {
 	if err := json.Unmarshal(raw, &c); err != nil {
 		return Outcome{}, err
 	}
-	return guarded(s, c), nil
+	return guardedR(s, c, true), nil
 }
 
 var registry = map[string]erased{}
@@ -220,6 +226,49 @@ func cpuNow() int64 {
 	return (ru.Utime.Sec+ru.Stime.Sec)*1e9 + (ru.Utime.Usec+ru.Stime.Usec)*1e3
 }
 
+// guardedR: the normal run, then (for the chosen cases, or always when replaying) the parallel replicas.
+func guardedR[C any](s *Spec[C], c C, force bool) Outcome {
+	out := guarded(s, c)
+	if s.Replicas <= 1 || out.Violation != "" || out.Inconclusive != "" || out.Skipped {
+		return out
+	}
+	if !force {
+		every := s.ReplicaEvery
+		if every <= 0 {
+			every = 8
+		}
+		js, _ := json.Marshal(c)
+		h := fnv.New64a()
+		h.Write(js)
+		if h.Sum64()%uint64(every) != 0 {
+			return out
+		}
+	}
+	outs := make([]Outcome, s.Replicas)
+	var wg sync.WaitGroup
+	var gate atomic.Int32
+	for i := range outs {
+		i := i
+		wg.Add(1)
+		go func() {
+			defer wg.Done()
+			gate.Add(1)
+			for int(gate.Load()) < s.Replicas {
+				runtime.Gosched()
+			}
+			outs[i] = guarded(s, c)
+		}()
+	}
+	wg.Wait()
+	for i, o := range outs {
+		if o.Violation != "" {
+			return Outcome{Violation: fmt.Sprintf("with %d independent copies of this case running in parallel goroutines (each on objects of its own; a single run of the case passes), copy %d fails: %s", s.Replicas, i, o.Violation)}
+		}
+	}
+	out.Labels = append(out.Labels, "also-run-as-parallel-independent-copies")
+	return out
+}
+
 func guarded[C any](s *Spec[C], c C) (out Outcome) {
 	if s.NoRecover {
 		return s.Run(c)
@@ -245,7 +294,7 @@ func (r *recorder[C]) one(c C) Outcome {
 	r.caseCPU0.Store(cpuNow())
 	r.caseWall0.Store(time.Now().UnixNano())
 	r.caseSeq.Add(1)
-	out := guarded(r.spec, c)
+	out := guardedR(r.spec, c, false)
 	r.caseSeq.Add(1)
 
 	r.mu.Lock()
